@@ -16,6 +16,8 @@ from vlib.simnet import Net, SimAccessory
 class FakeController:
     def __init__(self):
         self._char_cache = CharacteristicCacheMemory()
+        self.aliases = {}          # the registries a transport controller keeps (Controller.remove_pairing edits them)
+        self.pairings = {}
 
 
 class IpWorld:
